@@ -532,8 +532,9 @@ Definition as_rec (e : err) (v : lval) : res (list field) :=
 
 Definition fun2_sem (f : fun2) (a b : res lval) : res lval :=
   match f with
-  | F2Add => bind a (fun va => bind (as_num va) (fun x =>
-             bind b (fun vb => bind (as_num vb) (fun y => Ok (VNum (x + y))))))
+  | F2Add => (* both operands are evaluated (left first) before their types are checked *)
+             bind a (fun va => bind b (fun vb =>
+             bind (as_num va) (fun x => bind (as_num vb) (fun y => Ok (VNum (x + y))))))
   | F2Count => bind a (fun va => bind (as_num va) (fun x => Ok (VNum (x + 1))))
   | F2Fst => a
   | F2Snd => b
